@@ -180,3 +180,50 @@ def replay(ctx, path):
         ctx.violation("kernel_trace", sc, {"code_log": out[0]["log"]}, "recorded log rejected at entry %d" % stuck[0])
     ctx.sample({"program": sc["scripts"], "log": out[0]["log"][:12]})
     return ctx.finish("replay of one stored scenario")
+
+
+def agenda_traces(ctx, apps=("basic", "sp", "rr", "drr", "wfq", "token_bucket", "hub", "tcp", "fair_packet_switch")):
+    """C01(b): record what every Environment of the repository's own tests and demo programs does with its agenda
+    (schedule calls, popped events) and let TLC validate the traces against AgendaTrace.tla."""
+    import subprocess, tempfile, shutil, sys
+    repo = core.repo_path()
+    plug = os.path.join(core.VERIF, "harness", "plugins")
+    tmp = tempfile.mkdtemp(prefix="vagenda.")
+    traces = []
+    names = []
+    try:
+        env = dict(os.environ, PYTHONPATH=repo + ":" + plug, PYTHONDONTWRITEBYTECODE="1", PYTHONHASHSEED="0")
+        env["AGENDA_TRACE_OUT"] = os.path.join(tmp, "tests.json")
+        subprocess.run([core.PY, "-B", "-m", "pytest", "-q", "-p", "no:cacheprovider", "-p", "agenda_recorder", "--timeout=300",
+                        os.path.join(repo, "tests")], cwd=tmp, env=env, stdout=subprocess.PIPE, stderr=subprocess.STDOUT, timeout=1200)
+        if os.path.exists(env["AGENDA_TRACE_OUT"]):
+            t = json.load(open(env["AGENDA_TRACE_OUT"]))
+            traces += t
+            names += ["tests#%d" % i for i in range(len(t))]
+        for a in apps:
+            path = os.path.join(repo, "tests", "apps", a + ".py")
+            if not os.path.exists(path):
+                continue
+            env["AGENDA_TRACE_OUT"] = os.path.join(tmp, "app_%s.json" % a)
+            code = "import agenda_recorder, runpy, sys; sys.argv=[%r]; runpy.run_path(%r, run_name='__main__')" % (a, path)
+            try:
+                subprocess.run([core.PY, "-B", "-c", code], cwd=tmp, env=env, stdout=subprocess.DEVNULL, stderr=subprocess.DEVNULL, timeout=180)
+            except subprocess.TimeoutExpired:
+                continue
+            if os.path.exists(env["AGENDA_TRACE_OUT"]):
+                t = json.load(open(env["AGENDA_TRACE_OUT"]))
+                traces += t
+                names += ["apps/%s#%d" % (a, i) for i in range(len(t))]
+    finally:
+        shutil.rmtree(tmp, ignore_errors=True)
+    if not traces:
+        raise core.Machinery("agenda recorder produced no trace")
+    stuck = ctx.validate("AgendaTrace", "AgendaTrace.cfg", "kernel", traces, shard=40)
+    for i, pos in sorted(stuck.items()):
+        ev = traces[i]["ev"]
+        ctx.violation("agenda_trace", {"source": names[i]}, {"ev": ev[max(0, pos - 6):pos + 2]},
+                      "agenda trace of %s violates the ordering law at event %d: %s" % (names[i], pos, json.dumps(ev[pos - 1]) if pos - 1 < len(ev) else "<end>"),
+                      sig="agenda " + names[i].split("#")[0])
+    ctx.count("agenda_traces_of_repository_tests_and_demos", len(traces) - len(stuck))
+    ctx.extra["agenda_trace_events"] = sum(len(t["ev"]) for t in traces)
+    return traces, stuck
